@@ -41,12 +41,29 @@ func genReviewCase(c *runCtx, r *rand.Rand, idx int) error {
 	t.Defs = map[int][]int{101: {4}, 102: {5}, 103: {6}, 104: {7}}
 	t.Idents = map[int]map[string]string{}
 	identTerms := []string{}
+	m := 1 + r.Intn(4)
+	pids := []int{}
+	inRule := map[int]bool{}
+	for _, x := range r.Perm(4)[:m] {
+		pids = append(pids, 101+x)
+		inRule[101+x] = true
+	}
+	// several principals may claim one identity - but not two principals of the rule under test: one approval
+	// counts for one principal, and which of the claimants that is follows Go's map order over the rule's
+	// principal set (as with shared keys, that is left out of the generated histories)
+	heldInRule := map[string]int{}
 	for pid := 101; pid <= 104; pid++ {
 		for ai, a := range c09Apps {
 			if r.Intn(3) != 0 {
 				id := fmt.Sprintf("user%d", 200+pid-100+10*ai)
 				if r.Intn(8) == 0 {
-					id = "user201" // several principals may claim one identity
+					id = "user201"
+				}
+				if inRule[pid] {
+					if other, held := heldInRule[id]; held && other != pid {
+						id = fmt.Sprintf("user%d", 220+pid-100+10*ai) // an identity nobody else has
+					}
+					heldInRule[id] = pid
 				}
 				if t.Idents[pid] == nil {
 					t.Idents[pid] = map[string]string{}
@@ -55,11 +72,6 @@ func genReviewCase(c *runCtx, r *rand.Rand, idx int) error {
 				identTerms = append(identTerms, fmt.Sprintf("(%d%%N, %d%%N, %d%%N)", pid, ai+1, identNum(id)))
 			}
 		}
-	}
-	m := 1 + r.Intn(4)
-	pids := []int{}
-	for _, x := range r.Perm(4)[:m] {
-		pids = append(pids, 101+x)
 	}
 	thr := 1 + r.Intn(min(3, m))
 	t.Rules = []hRule{{Name: "protect-main", Patterns: []string{"git:" + refMain}, Pids: pids, Thr: thr}}
